@@ -335,6 +335,38 @@ def run(tier, seed):
                     rep.violation("C14:hidden-call-not-refused:init-module", "a call outside the static closure (reached through a helper of another package) returned instead of raising the undeclared-dependency error", meta)
                 except UndeclaredDependencyError:
                     pass
+            # a memento function of ANOTHER package named through its module (`from libpkg14 import lib; lib.leaf(x)`), directly and
+            # inside a plain helper of the caller's package, beside the bare-name form (`from libpkg14.lib import leaf`)
+            files2 = {
+                "libpkg14/__init__.py": "",
+                "libpkg14/lib.py": "from twosigma.memento import memento_function\n\n@memento_function(cluster=%r)\ndef leaf(x):\n    return x + 1\n\n@memento_function(cluster=%r)\ndef leaf2(x):\n    return x + 2\n" % (CL, CL),
+                "apppkg14/__init__.py": "",
+                "apppkg14/main.py": ("from twosigma.memento import memento_function\nfrom libpkg14 import lib\nfrom libpkg14.lib import leaf2\nimport libpkg14.lib\n\n"
+                                     "def helper(x):\n    return lib.leaf(x) * 2\n\n"
+                                     "@memento_function(cluster=%r)\ndef by_module(x):\n    return lib.leaf(x)\n\n"
+                                     "@memento_function(cluster=%r)\ndef by_name(x):\n    return leaf2(x)\n\n"
+                                     "@memento_function(cluster=%r)\ndef by_helper(x):\n    return helper(x)\n\n"
+                                     "@memento_function(cluster=%r)\ndef by_dotted(x):\n    return libpkg14.lib.leaf2(x)\n") % (CL, CL, CL, CL),
+            }
+            for rel, body in files2.items():
+                os.makedirs(os.path.dirname(os.path.join(base, rel)), exist_ok=True)
+                with open(os.path.join(base, rel), "w") as f:
+                    f.write(body)
+            importlib.invalidate_caches()
+            app = importlib.import_module("apppkg14.main")
+            stats["cross_package_module_attribute_cases"] = 4
+            for fname, want, val in (("by_module", ["leaf"], 2), ("by_name", ["leaf2"], 3), ("by_helper", ["leaf"], 4), ("by_dotted", ["leaf2"], 3)):
+                f_ = getattr(app, fname)
+                got = sorted(x.qualified_name_without_version.split(":")[-1] for x in f_.dependencies().transitive_memento_fn_dependencies())
+                meta2 = {"layout": sorted(files2), "function": fname}
+                if got != want:
+                    rep.violation("C14:transitive-not-exact:cross-package-module-attribute", "%s reaches %r of another package through its module; reported transitive dependencies %r" % (fname, want, got), meta2)
+                    continue
+                try:
+                    if f_(1) != val:
+                        rep.violation("C14:declared-call-refused:cross-package-module-attribute", "%s(1) returned a wrong value" % fname, meta2)
+                except UndeclaredDependencyError:
+                    rep.violation("C14:declared-call-refused:cross-package-module-attribute", "a call inside the static closure (%s) was refused" % fname, meta2)
         except Exception as e:
             rep.violation("C14:init-module-scenario-raised", "%s: %s" % (type(e).__name__, str(e)[:200]), {})
         try:
